@@ -24,7 +24,8 @@ LEVEL_TEXT = ("For random DAGs (p 2..6), 1-3 environments of 20-80 rows with pai
               "TypeError / ValueError cases are raised.")
 LEVEL_NOTE = "The R forest is replaced by a deterministic nearest-neighbour stand-in; only the Python side is under check."
 RULE = ("cases: (graph, data sizes, n form, seed).  distinct = distinct canonical case; non-trivial = at least one non-source node "
-        "and at least two source nodes or two environments")
+        "and at least two source nodes or two environments"
+        ' Also: graphs with 9-12 variables, numpy-integer seeds, Fortran-ordered data, the caller overwriting his data after construction.')
 ASSUMPTIONS = ["stand-in backend behind the rpy2 interface (no R in the sandbox)"]
 EXHAUSTIVE = {"quick": False, "thorough": False}
 SOFT_LIMIT = {"quick": 240, "thorough": 1500}
